@@ -124,10 +124,14 @@ class igmp (packet_base):
       s = struct.pack("!BBHHH", self.ver_and_type, 0, 0, 0, num)
       s += self.extra
 
-      for _ in range(num):
-        off,gr = GroupRecord.unpack_new(self.extra)
-        self.extra = self.extra[off:]
-        self.group_records.append(gr)
+      try:
+        for _ in range(num):
+          off,gr = GroupRecord.unpack_new(self.extra)
+          self.extra = self.extra[off:]
+          self.group_records.append(gr)
+      except TruncatedException:
+        self.msg('(igmp parse) warning group records are truncated')
+        return
 
     elif ver_and_type in (MEMBERSHIP_QUERY, MEMBERSHIP_REPORT,
                           MEMBERSHIP_REPORT_V2, LEAVE_GROUP_V2):
@@ -179,10 +183,14 @@ class GroupRecord (object):
 
   @classmethod
   def unpack_new (cls, raw, offset=0):
+    if len(raw) - offset < 1+1+2+4:
+      raise TruncatedException()
     t, auxlen, n, addr = struct.unpack_from("!BBH4s", raw, offset)
     offset += 1+1+2+4
     addr = IPAddr(addr)
     auxlen *= 4
+    if len(raw) - offset < 4 * n + auxlen:
+      raise TruncatedException()
     addrs = []
     for _ in range(n):
       addrs.append( IPAddr(raw[offset:offset+4])  )
